@@ -4,7 +4,7 @@
 use crate::common::*;
 use crate::live::*;
 use crate::md::{self, u32_at, u64_at};
-use crate::tl::{gen_plan, run_plan};
+use crate::tl::{gen_plan, run_plan_hist};
 
 /// (kind, rva, size) of a MINIDUMP_STRING at rva, by its own header
 fn string_obj(img: &[u8], rva: u32) -> Result<(u64, u64, u64), String> { let n = u32_at(img, rva as usize)?; Ok((7, rva as u64, 4 + n as u64)) }
@@ -75,7 +75,9 @@ pub fn run(a: &Args) {
         // descriptors and a synthetic linker chain so that the handle and linker streams carry references
         for k in ["file", "pipe", "socket", "dir"] { if rng.chance(1, 2) { plan.scen.lines.push(format!("fd {k}")); } }
         let opts = format!("crash{} limit{} sanitize{} skip{} app{} threads{}", plan.crash, plan.limit.is_some() as u8, plan.sanitize as u8, plan.skip, plan.napp, plan.scen.threads.len());
-        match run_plan(&mut rng, plan, &work) {
+        // one case in three: the writer has already served a request that was abandoned after an I/O error of the destination
+        let fail_first = if case % 3 == 1 { out.count("history.abandoned_request_first"); Some(rng.range(4, 14) as usize) } else { None };
+        match run_plan_hist(&mut rng, plan, &work, fail_first) {
             Err(e) => { out.notes.push(format!("case skipped: {e}")); }
             Ok(lv) => match &lv.image {
                 Err(e) => { let mut l = Line::new("const"); l.u(1); out.case(l.s(), &format!("!dump failed: {}", e.replace('\n', " ").chars().take(200).collect::<String>()), true); }
@@ -178,7 +180,9 @@ pub fn run_image(a: &Args) {
         if case % 2 == 0 { plan.scen.lines.push(format!("appmem 0 {} {}", 3 * 4096 - *rng.pick(&[0x100u64, 1, 4095]), *rng.pick(&[0x200u64, 4096, 5000]))); plan.napp += 1; }
         for k in ["file", "pipe", "socket", "dir"] { if rng.chance(1, 2) { plan.scen.lines.push(format!("fd {k}")); } }
         let opts = format!("crash{} limit{} sanitize{} skip{} app{} threads{}", plan.crash, plan.limit.is_some() as u8, plan.sanitize as u8, plan.skip, plan.napp, plan.scen.threads.len());
-        match run_plan(&mut rng, plan, &work) {
+        // one case in three: the writer has already served a request that was abandoned after an I/O error of the destination
+        let fail_first = if case % 3 == 1 { out.count("history.abandoned_request_first"); Some(rng.range(4, 14) as usize) } else { None };
+        match run_plan_hist(&mut rng, plan, &work, fail_first) {
             Err(e) => { out.notes.push(format!("case skipped: {e}")); }
             Ok(lv) => match &lv.image {
                 Err(e) => { out.count("dump.failed"); out.notes.push(format!("dump failed (no image to compare): {}", e.chars().take(120).collect::<String>())); }
